@@ -30,10 +30,10 @@ TIERS = {
     # K: symbols per type in the uniform family; R: symbols used by rare operations
     'quick': dict(K=6, R=2, depth_small=3, depth_big=3, small=6, wordlen=4, wordlen_big=3, big=12, maxpersym=2, maxrare=1,
                   ops=['add', 'fwd', 'remove', 'replace', 'tostring', 'tostring_ic', 'dotelem', 'dotnone'],
-                  families=['uniform', 'words', 'perms', 'removal'], chks=['TRUE', 'FALSE'], shards=32),
+                  families=['uniform', 'words', 'perms', 'removal', 'cover'], chks=['TRUE', 'FALSE'], shards=32),
     'thorough': dict(K=10, R=4, depth_small=4, depth_big=3, small=6, wordlen=5, wordlen_big=4, big=12, maxpersym=2, maxrare=1,
                      ops=['add', 'fwd', 'remove', 'replace', 'tostring', 'tostring_ic', 'dotelem', 'dotnone'],
-                     families=['uniform', 'words', 'perms', 'removal'], chks=['TRUE', 'FALSE'], shards=64),
+                     families=['uniform', 'words', 'perms', 'removal', 'cover'], chks=['TRUE', 'FALSE'], shards=64),
 }
 
 
